@@ -3,6 +3,7 @@ package main
 import (
 	"fmt"
 	"go/token"
+	"go/types"
 	"sort"
 	"strings"
 
@@ -63,6 +64,7 @@ func ruleC04(w *World, r *Report) {
 		"R04.2 provenance of every match key and action parameter against the statement's mapping (n3_address/teid, ue_address, app_id, FAR teid, QFI or default, TC = configured map entry selected by the map's own presence bit else default TC, tunnel peer of the FAR's outer-header address, tunnel params), the orchestrator hands all of the session's rules to the builder in create/update/delete; " +
 		"R04.3 shared objects: the three tunnelParams literals agree, usedBy references are (F-SEID, FAR id)/(F-SEID, PDR id) in add and remove, every FAR of a deleted session releases its tunnel-peer reference unconditionally, application add/remove sit under the same non-empty-filter guard; " +
 		"R04.4 clearTables lists every table a builder writes, clearDatapathState re-initialises the interfaces after the clear on every non-error path, both interface entries go out in one write, start-up takes the clearing branch."
+	r.Explanation += " R04.9 IsAppFilterEmpty, interpreted for all valuations of its atoms, equals proto==0 ∧ (remote end of the PDR's direction all-wildcard)."
 	r.NotDecided = "reference-count arithmetic over histories ('present iff at least one live rule uses it'); what the switch does"
 	info := loadP4Info(w.Repo, P)
 	closed := w.ConstInt(P, iePkg, "GateStatusClosed")
@@ -269,6 +271,7 @@ func ruleC04(w *World, r *Report) {
 	ruleC04Orchestrator(w, r)
 	ruleC04Shared(w, r)
 	ruleC04Startup(w, r, info)
+	ruleC04AppFilterEmpty(w, r)
 }
 
 // ruleC04AppSide: the application address/port come from the destination side for access
@@ -1045,4 +1048,116 @@ func sliceElems(v ssa.Value, depth int) ([]ssa.Value, bool) {
 		}
 	}
 	return nil, false
+}
+
+// ruleC04AppFilterEmpty (R04.9): UP4 files a PDR under application ID 0 — no applications entry, no
+// reference on one — exactly when IsAppFilterEmpty() says so. The applications table matches on the
+// application side of the filter: protocol, address and L4 port of the remote end (destination for
+// uplink, source for downlink). The predicate is interpreted for every valuation of its atoms and
+// compared with   proto==0 ∧ ((uplink ∧ dstIP==0 ∧ dstPort wildcard) ∨ (downlink ∧ srcIP==0 ∧ srcPort wildcard)).
+func ruleC04AppFilterEmpty(w *World, r *Report) {
+	const P = "C04"
+	f := w.Fn(P, "pfcpiface.(pdr).IsAppFilterEmpty")
+	fn := w.FuncName(f)
+	access := w.ConstInt(P, pfcpPkg, "access")
+	core := w.ConstInt(P, pfcpPkg, "core")
+	names := []string{"P0", "UL", "DL", "DIP0", "DPW", "SIP0", "SPW"}
+	classify := func(v ssa.Value) (string, bool) { // atom name, negated
+		switch x := v.(type) {
+		case *ssa.Call:
+			g := staticCallee(x)
+			if g == nil {
+				return "", false
+			}
+			switch g.Name() {
+			case "IsUplink":
+				return "UL", false
+			case "IsDownlink":
+				return "DL", false
+			case "isWildcardMatch":
+				s := symOf(x.Call.Args[0]).String()
+				if strings.Contains(s, "dstPortRange") {
+					return "DPW", false
+				}
+				if strings.Contains(s, "srcPortRange") {
+					return "SPW", false
+				}
+			}
+		case *ssa.BinOp:
+			if x.Op != token.EQL && x.Op != token.NEQ {
+				return "", false
+			}
+			a, k := x.X, x.Y
+			c, isK := constInt(k)
+			if !isK {
+				a, k = x.Y, x.X
+				c, isK = constInt(k)
+			}
+			if !isK {
+				return "", false
+			}
+			s := symOf(a).String()
+			neg := x.Op == token.NEQ
+			switch {
+			case strings.HasSuffix(s, "appFilter.proto") && c == 0:
+				return "P0", neg
+			case strings.HasSuffix(s, "appFilter.dstIP") && c == 0:
+				return "DIP0", neg
+			case strings.HasSuffix(s, "appFilter.srcIP") && c == 0:
+				return "SIP0", neg
+			case strings.HasSuffix(s, "srcIface") && c == access:
+				return "UL", neg
+			case strings.HasSuffix(s, "srcIface") && c == core:
+				return "DL", neg
+			}
+		}
+		return "", false
+	}
+	n, bad := 0, 0
+	for m := 0; m < 1<<uint(len(names)); m++ {
+		env := map[string]bool{}
+		for i, nm := range names {
+			env[nm] = m&(1<<uint(i)) != 0
+		}
+		if env["UL"] && env["DL"] {
+			continue
+		}
+		foreign := ""
+		got, ok := evalBoolFuncV(f, func(v ssa.Value) (bool, bool, bool) {
+			if nm, neg := classify(v); nm != "" {
+				return env[nm] != neg, true, true
+			}
+			if _, isCall := v.(*ssa.Call); isCall {
+				foreign = valueText(v)
+				return false, false, true
+			}
+			if bo, isB := v.(*ssa.BinOp); isB {
+				if _, lb := bo.X.Type().Underlying().(*types.Basic); lb && bo.X.Type().Underlying().String() != "bool" {
+					foreign = valueText(v)
+					return false, false, true
+				}
+			}
+			return false, false, false
+		})
+		if !ok {
+			r.bad("R04.9", fn, "IsAppFilterEmpty is decided by protocol, direction and the remote end's address and port", w.Pos(f.Pos()), "the predicate depends on something else ("+foreign+") or could not be interpreted")
+			return
+		}
+		n++
+		want := env["P0"] && ((env["UL"] && env["DIP0"] && env["DPW"]) || (env["DL"] && env["SIP0"] && env["SPW"]))
+		if got != want && bad < 3 {
+			bad++
+			var on []string
+			for _, nm := range names {
+				if env[nm] {
+					on = append(on, nm)
+				}
+			}
+			r.bad("R04.9", fn, fmt.Sprintf("IsAppFilterEmpty for {%s}", strings.Join(on, ",")), w.Pos(f.Pos()), fmt.Sprintf("the predicate answers %v where the applications-table key is %s: such a PDR is filed under application ID %s (P0 proto==0, UL/DL direction, DIP0/SIP0 address zero, DPW/SPW port wildcard)", got, ifelse(want, "empty", "not empty"), ifelse(got, "0 although its filter needs an applications entry", "of an all-wildcard entry")))
+		}
+	}
+	if bad == 0 {
+		r.ok("R04.9", fn, "IsAppFilterEmpty ⇔ proto==0 ∧ remote end of the PDR's direction is all-wildcard", w.Pos(f.Pos()), fmt.Sprintf("%d valuations of 7 atoms interpreted", n))
+	}
+	r.floor("R04.9 valuations interpreted", n, 90)
 }
